@@ -16,7 +16,7 @@ use crate::util::J;
 
 pub struct C09;
 
-const ITEMS: [&str; 14] = ["a", "c", "a-c", "A-C", "\\d", "\\s", "\\D", "\\-", "\\]", "^", " ", "\u{e9}", "\\p{Lu}", "\\P{Lu}"];
+const ITEMS: [&str; 16] = ["a", "c", "a-c", "A-C", "\\d", "\\s", "\\D", "\\-", "\\]", "^", " ", "\u{e9}", "\\p{Lu}", "\\P{Lu}", "\\t-\\r", "!-\\-"];
 const HYPH: [(&str, &str); 3] = [("", ""), ("-", ""), ("", "-")];
 
 /// sequences of 1..=n items, as index -> text
